@@ -27,6 +27,7 @@ class Events:
         self.impure = []       # names of impure APIs called
         self.stmts = set()
         self.dirlist = 0
+        self.active = True
 
     def to_json(self):
         return {
@@ -91,6 +92,8 @@ def install(names, ev=None):
 
     if "files" in names:
         def hook(event, args):
+            if not ev.active:
+                return
             if event == "open":
                 path, mode, flags = args
                 if isinstance(path, int) or mode is None:
